@@ -13,5 +13,10 @@ open Gen.SourceFacts
 theorem gen_calculate_partials :
     implicitCalculatePartials = "break_points = np.where(np.any(np.isnan(x), 1))[0].tolist() ; break_points.append(x.shape[0]) ; start = 0 ; for end in break_points:     x_seg = np.copy(x[start:end, :])     time_deriv = np.empty(x_seg.shape)     for i in range(x_seg.shape[1]):         time_deriv[:, i] = _savitzky_golay_gram(x_seg[:, i], 7, 3, 1)     time_deriv = time_deriv[3:-4, :]     x_seg = x_seg[3:-4, :]     if start == 0:         x_all = np.copy(x_seg)         time_deriv_all = np.copy(time_deriv)         inds_all = np.arange(start + 3, end - 4)     else:         x_all = np.vstack((x_all, np.copy(x_seg)))         time_deriv_all = np.vstack((time_deriv_all, np.copy(time_deriv)))         inds_all = np.hstack((inds_all, np.arange(start + 3, end - 4)))     start = end + 1 ; return (x_all, time_deriv_all, inds_all)" := rfl
 
+/-- the fitness vector the model `SavGol.implicitVector` mirrors: a ratio of the directional derivative to the sum of its absolute terms, with the `required_params` guard and nothing else between them -/
+theorem gen_implicit_fitness_vector :
+    implicitFitnessVector = "self.eval_count += 1 ; _, df_dx = individual.evaluate_equation_with_x_gradient_at(x=self.training_data.x) ; dot_product = df_dx * self.training_data.dx_dt ; if self._required_params is not None:     if not self._enough_parameters_used(dot_product):         return np.full((self.training_data.x.shape[0],), np.inf) ; denominator = np.sum(np.abs(dot_product), axis=1) ; normalized_fitness = np.sum(dot_product, axis=1) / denominator ; normalized_fitness[~np.isfinite(denominator)] = np.inf ; return normalized_fitness" :=
+  rfl
+
 end C20Facts
 end Bingo
